@@ -22,8 +22,10 @@ def oracle(progs: Sequence[Dict[str, Any]], module: str = "Eval_Djc", workers: i
     if not progs:
         return {}
     w = workdir("oracle")
-    nshards = max(1, min(nshards, len(progs) // 50 + 1))
-    shards = [progs[i::nshards] for i in range(nshards)]
+    # bounded chunks (one TLC run each) handed to a pool of `nshards` JVMs: wall time of a single run
+    # stays far below the TLC timeout whatever the batch size
+    size = max(50, min(300, -(-len(progs) // nshards)))
+    shards = [progs[i:i + size] for i in range(0, len(progs), size)]
     stats = {"states": 0}
 
     def one(k):
@@ -34,11 +36,13 @@ def oracle(progs: Sequence[Dict[str, Any]], module: str = "Eval_Djc", workers: i
         rows = tlc.read_ndjson(fout)
         if len(rows) != len(shards[k]):
             raise MachineryError(f"oracle returned {len(rows)} results for {len(shards[k])} programs")
+        fin.unlink()
+        fout.unlink()
         return rows, r.distinct
 
     out: Dict[int, Dict[str, Any]] = {}
     with cf.ThreadPoolExecutor(max_workers=nshards) as ex:
-        for rows, st in ex.map(one, range(nshards)):
+        for rows, st in ex.map(one, range(len(shards))):
             stats["states"] += st
             for row in rows:
                 out[row["id"]] = row
